@@ -1,17 +1,18 @@
 #!/bin/bash
-# Dev tool: apply a patch to /repo, run the quick checks of the given properties, undo the patch.
+# Dev tool: apply a patch to a SCRATCH worktree of /repo (never to /repo itself), run the checks of the
+# given properties against it, remove the worktree.
 # usage: tools/try_patch.sh <patch.diff> <ID> [ID...]     (VERIF_TIER_MODE=thorough to use the thorough tier)
 set -u
 patch=$(readlink -f "$1"); shift
-cd /repo || exit 2
-if [ -n "$(git status --porcelain)" ]; then echo "repo not clean"; exit 2; fi
-git apply "$patch" || { echo "patch does not apply"; exit 2; }
-trap 'git -C /repo checkout -- . ; git -C /repo clean -fdq -- x types api 2>/dev/null' EXIT
+wt=/tmp/mutwt-$$
+git -C /repo worktree add --detach $wt HEAD -q || exit 2
+trap 'git -C /repo worktree remove --force '$wt' 2>/dev/null; rm -rf /verif/.build/harness-_tmp_mutwt_'$$' /tmp/mut-evidence-'$$'' EXIT
+git -C $wt apply "$patch" || { echo "patch does not apply"; exit 2; }
 cd /verif
 mode=${VERIF_TIER_MODE:-quick}
 for id in "$@"; do
   s=$(date +%s)
-  out=$(./check "$id" "$mode" 2>/tmp/try_patch.$id.err)
+  out=$(VERIF_REPO=$wt VERIF_EVIDENCE_DIR=/tmp/mut-evidence-$$ ./check "$id" "$mode" 2>/tmp/try_patch.$id.err)
   rc=$?
   e=$(( $(date +%s) - s ))
   echo "== $id rc=$rc (${e}s) $(echo "$out" | grep -m1 VIOLATION)"
